@@ -145,7 +145,7 @@ def is_sym(v):
 
 # ---------------------------------------------------------------------------- schema
 INT_FIELDS = {'signal', 'priority', 'total_times', 'period', '$len', '$maxlen', 'qsize', 'unfinished',
-              'times_activated', 'maxsize', 'order'}
+              'times_activated', 'maxsize', 'order', 'held', 'epoch'}
 BOOL_FIELDS = {'ignored', 'instrumented', 'live_spy', 'live_trace', 'spied_on', 'alive', 'daemon', 'flag',
                'hook', 'start', 'internal', 'recall', 'post_lifo', 'post_fifo', 'post_defer', 'deferred',
                'started', '_is_atomic'}
@@ -569,6 +569,7 @@ class World:
         self.user_signal = None
         self.local_types = {}       # (function path, local name) -> pytype (sidecar typing of locals)
         self.fresh_excludes = {}    # pytype -> heap fields that cannot yet point to a newly allocated object
+        self.guarded = {}           # (class pytype, field) -> name of the lock attribute protecting it (None: no lock)
         self.pytype_overrides = {}  # (owner pytype, field) -> pytype
         self.dynamic_attrs = {'*': {'state_name', 'state_fn', 'spied_on'}}
 
